@@ -72,7 +72,7 @@ def main():
             {"name": "histx", "path": "vlib/explore.py", "serves_properties": ["C03", "C04", "C17", "C18", "C19"],
              "kind_free_text": "explicit-state BFS / exhaustive depth-bounded enumeration of operation histories on real "
                                "objects against a Python reference model"},
-            {"name": "cfgx", "path": "vlib/cfgx.py", "serves_properties": ["C01", "C02", "C20"],
+            {"name": "cfgx", "path": "vlib/runner.py", "serves_properties": ["C01", "C02", "C20"],
              "kind_free_text": "complete cartesian products of small configuration axes, one real execution per cell"},
             {"name": "gridx", "path": "vlib/grids.py",
              "serves_properties": ["C05", "C06", "C07", "C09", "C10", "C11", "C13", "C14", "C16"],
@@ -90,7 +90,10 @@ def main():
         "not_applicable": na,
         "notes": "All checks rebuild the extension modules from /repo's working tree with gcc (no Cython in the sandbox: "
                  ".pyx edits cannot be compiled; drift is reported as a WARNING and in evidence.assumptions). "
-                 "Known findings: /verif/known_findings.json.",
+                 "Known findings: /verif/known_findings.json and /verif/known_findings.d/*.json (read-only at run time). Every check runs the "
+                 "code under test from a throw-away working directory. Seeded property-breaking changes with the signatures that catch them: "
+                 "/verif/seeded (tools/regress_seeded.py re-runs them all); behaviour-preserving changes that must not alarm any check: "
+                 "/verif/benign (tools/regress_benign.py).",
     }
     with open(os.path.join(VERIF, "MANIFEST.json"), "w") as f:
         json.dump(man, f, indent=1)
